@@ -12,7 +12,6 @@ from typing import (
     List,
     Optional,
     Sequence,
-    Set,
     Tuple,
 )
 
@@ -413,6 +412,9 @@ class AhocorasickTokenizer(Tokenizer):
 
     def __post_init__(self):
         """Set up helpers to narrow down possible extractors."""
+        # Remember the position of each extractor so that get_extractors()
+        # can return them in a stable order
+        self.extractor_order = {id(e): i for i, e in enumerate(EXTRACTORS)}
         # Build a set of all extractors that don't list required strings
         self.unfiltered_extractors = set(
             e for e in EXTRACTORS if not e.strings
@@ -432,7 +434,7 @@ class AhocorasickTokenizer(Tokenizer):
             for s in e.strings
         )
 
-    def get_extractors(self, text: str) -> Set[TokenExtractor]:
+    def get_extractors(self, text: str) -> List[TokenExtractor]:
         """Override get_extractors() to filter out extractors
         that can't possibly match."""
         unique_extractors = set(self.unfiltered_extractors)
@@ -440,7 +442,12 @@ class AhocorasickTokenizer(Tokenizer):
             unique_extractors.update(extractors)
         for _, extractors in self.case_insensitive_filter.iter(text.lower()):
             unique_extractors.update(extractors)
-        return unique_extractors
+        # Return the extractors in the order of EXTRACTORS rather than in set
+        # order: set order changes with PYTHONHASHSEED, and when two
+        # extractors match the same span the first one wins in tokenize().
+        return sorted(
+            unique_extractors, key=lambda e: self.extractor_order[id(e)]
+        )
 
     @staticmethod
     def make_ahocorasick_filter(
